@@ -118,7 +118,15 @@ func genRelayCfg(g *gen, focus string) *Cfg {
 		}
 	}
 	for _, n := range sortedNames(topo.hopNames) {
-		if g.chance(70) {
+		if !g.chance(70) {
+			if g.chance(50) {
+				// not in any host table, but the name server knows it
+				if c.DNS == nil {
+					c.DNS = map[string][]string{}
+				}
+				c.DNS[n] = []string{topo.hopNames[n]}
+			}
+		} else {
 			c.Hosts = append(c.Hosts, HostCfg{Name: n, IP: topo.hopNames[n]})
 			if g.chance(15) {
 				// the same name in the top-level table with another address: the service's own entry wins
@@ -332,6 +340,9 @@ func (g *gen) routeEntryFor(hostport string, extra bool) string {
 		s += ";" + g.alnum(1, 5) + "=" + g.alnum(1, 5)
 		if g.chance(30) {
 			s += ";" + g.alnum(1, 4)
+		}
+		if g.chance(12) {
+			s += ";" + g.alnum(1, 4) + "=\"" + g.alnum(1, 3) + " " + g.alnum(1, 3) + "\"" // a quoted value with a blank inside
 		}
 	}
 	return s
@@ -549,6 +560,10 @@ func genRequest(g *gen, c *Cfg, o *relayGenOpts, learnedHosts []string) Op {
 	}
 	if g.chance(10) {
 		core = append(core, sipwire.Header{Name: "Expires", Value: strconv.Itoa(g.intn(7200))})
+	}
+	if method == "NOTIFY" && g.chance(70) {
+		// a NOTIFY of a subscription nobody here knows (unsolicited, expired, from before a restart)
+		core = append(core, sipwire.Header{Name: g.pick("Subscription-State", "subscription-state"), Value: g.pick("active", "active;expires=600", "terminated", "pending", "terminated;reason=timeout")})
 	}
 	// Via stack
 	nv := 1 + g.intn(3)
